@@ -376,12 +376,14 @@ def discharge(ob, axioms, timeout_ms=None, want_model=False):
     has_sigma = bool(sg.sigma_registry())
     axioms = list(axioms) + list((ob.info or {}).get("facts", []))
     s, r = _solve(ob, axioms, RLIMIT, True, min(tmo, STAGE_MS))
-    if r != z3.unsat:
-        s, r = _solve(ob, axioms, RLIMIT, False, min(tmo, STAGE_MS))
+    cheap = []
     if r != z3.unsat and has_sigma:
         cheap = sigma_facts(ob, axioms, cheap_only=True)
         if cheap:
             s, r = _solve(ob, axioms + cheap, RLIMIT, True, min(tmo, STAGE_MS))
+    if r != z3.unsat:
+        # quantified hypotheses (E-matching), short budget: either quick or hopeless
+        s, r = _solve(ob, axioms + cheap, RLIMIT, False, min(tmo, max(2500, STAGE_MS // 3)))
     if r != z3.unsat:
         facts = (sigma_facts(ob, axioms) if has_sigma else []) + unary_fn_arg_facts(ob, axioms)
         if facts or has_sigma:
